@@ -9,7 +9,11 @@ SWAP = {"<": ">", ">": "<", "<=": ">=", ">=": "<=", "==": "==", "!=": "!="}
 
 # non-const std:: members that hand out references / iterators but do not change the container's shape
 STD_ACCESSORS = ("operator[]", "at", "begin", "end", "rbegin", "rend", "data", "front", "back", "find", "lower_bound",
-                 "upper_bound", "operator*", "operator->", "get")
+                 "upper_bound", "operator*", "operator->", "get", "top")
+
+
+# free functions that take a non-const reference only to hand out a reference into it
+NONMUTATING_FREE = ("boost::get", "std::get", "boost::tuples::get", "std::begin", "std::end", "std::addressof", "boost::addressof")
 
 
 class Ctx:
@@ -72,6 +76,8 @@ class Ctx:
                             dv = decl.get(d)
                             if not n.get("arrow") and not accessor:
                                 mut.setdefault(d, []).append(j)
+                    if k == "call" and strip_targs(n.get("cname") or "") in NONMUTATING_FREE:
+                        continue
                     for ai, a in enumerate(args[off:]):
                         kind = cp[ai] if ai < len(cp) else "ref"
                         if kind in ("ref", "ptr") or (n.get("callee") is None):
